@@ -145,13 +145,12 @@ func runC11(r *mon.Run, replay string) {
 
 	if replay != "" {
 		var cc c11Case
-		if err := loadReplay(replay, &cc); err != nil {
+		if err := loadReplay(r, replay, &cc); err != nil {
 			r.Inconclusive("cannot read replay: " + err.Error())
 			return
 		}
-		for i := 0; i < 5; i++ {
-			runByzCase(r, cc)
-		}
+		// the case is regenerated from seed + stream; only the descriptor fields are taken from the file
+		parallel(3, 3, func(int) { runByzCase(r, cc) })
 		return
 	}
 
